@@ -487,6 +487,9 @@ impl RequestHandlerPipeline {
             }
 
             let mut type2info = HashMap::<Type, CloningInfo>::new();
+            // per middleware: (type, taken by reference, cloning allowed, Copy)
+            #[cfg(pavex_verif)]
+            let mut verif_inputs: Vec<Vec<(String, bool, bool, bool)>> = vec![Vec::new(); ids.len()];
 
             for (index, &id) in ids.iter().enumerate() {
                 let call_graph = &id2ordered_call_graphs[id];
@@ -510,6 +513,8 @@ impl RequestHandlerPipeline {
                             while let Type::Reference(ref_) = inner {
                                 inner = ref_.inner.as_ref();
                             }
+                            #[cfg(pavex_verif)]
+                            verif_inputs[index].push((format!("{inner:?}"), true, false, false));
                             if let Some(info) = type2info.get_mut(inner.as_ref()) {
                                 info.ref_by.push(index);
                             }
@@ -518,6 +523,13 @@ impl RequestHandlerPipeline {
                         Type::TypeAlias(_) |
                         Type::Tuple(_) |
                         Type::Array(_) => {
+                            #[cfg(pavex_verif)]
+                            verif_inputs[index].push((
+                                format!("{ty:?}"),
+                                false,
+                                component_db.cloning_policy(component_id) != CloningPolicy::NeverClone,
+                                assert_trait_is_implemented(krate_collection, &ty, &copy_trait).is_ok(),
+                            ));
                             type2info.entry(ty.clone()).or_default().consumed_by.push(ConsumerInfo { middleware_index: index, component_id });
                         }
                         // Scalars are trivially `Copy`, this analysis doesn't concern them.
@@ -541,6 +553,8 @@ impl RequestHandlerPipeline {
             }
 
             let mut type2cloning_indexes = IndexMap::with_capacity(type2info.len());
+            #[cfg(pavex_verif)]
+            let mut verif_result: Vec<(String, Vec<usize>)> = Vec::new();
             for (ty_, cloning_info) in type2info.into_iter() {
                 // A `Copy` type can be passed by value as many times as needed,
                 // there is nothing to clone and nothing to complain about.
@@ -599,6 +613,13 @@ impl RequestHandlerPipeline {
                         computation_db,
                         diagnostics,
                     );
+                    #[cfg(pavex_verif)]
+                    crate::compiler::verif::dump_line(format!(
+                        "{{\"ev\":\"stage4\",\"mws\":{},\"error\":[{},{}]}}",
+                        crate::compiler::verif::stage_inputs_json(&verif_inputs),
+                        crate::compiler::verif::json_string(&format!("{ty_:?}")),
+                        info.middleware_index
+                    ));
                     // We emit at most one error to minimise the likelihood of
                     // duplicates/error cascades that stem from the same underlying
                     // issue.
@@ -607,8 +628,24 @@ impl RequestHandlerPipeline {
 
                 let indexes: BTreeSet<_> =
                     consumers.into_iter().map(|v| v.middleware_index).collect();
+                #[cfg(pavex_verif)]
+                verif_result.push((format!("{ty_:?}"), indexes.iter().copied().collect()));
                 type2cloning_indexes.insert(ty_.canonicalize(), indexes);
             }
+            #[cfg(pavex_verif)]
+            crate::compiler::verif::dump_line(format!(
+                "{{\"ev\":\"stage4\",\"mws\":{},\"result\":[{}]}}",
+                crate::compiler::verif::stage_inputs_json(&verif_inputs),
+                verif_result
+                    .iter()
+                    .map(|(ty, ixs)| format!(
+                        "[{},{:?}]",
+                        crate::compiler::verif::json_string(ty),
+                        ixs
+                    ))
+                    .collect::<Vec<_>>()
+                    .join(",")
+            ));
             stage.type2cloning_indexes = type2cloning_indexes;
         }
 
